@@ -25,6 +25,10 @@ ASSUMPTIONS = ["independent layout model of DESIGN.md C17"]
 REQUIRED = ["add_accepted", "add_refused", "layout_eq", "layout_rejected", "scope_names", "frozen_add"]
 
 
+class Interrupt(BaseException):
+    """What a Ctrl-C or a framework's cancellation looks like: not an Exception subclass."""
+
+
 class Boom(Exception):
     pass
 
@@ -252,6 +256,21 @@ def run_case(case):
             mon.count("scopes_left_by_generator_exit")
             do_add()
             return
+        if style < 0.32 and depth < 3:
+            # the scope used as a function decorator (contextlib lets a context manager factory decorate a function: the
+            # scope is entered afresh around every call), the function called once or twice
+            @(b.Cluster(val) if kind == "cluster" else b.Index(val))
+            def block():
+                st["scope"].append(val)
+                try:
+                    do_add()
+                finally:
+                    st["scope"].pop()
+            for _k in range(rng.choice([1, 2])):
+                block()
+            mon.count("scopes_used_as_function_decorators")
+            do_add()
+            return
         st["scope"].append(val)
         mon.log(f"enter {kind}({val!r})")
         try:
@@ -263,8 +282,8 @@ def run_case(case):
                         do_add()
                 if rng.random() < 0.2:
                     mon.count("exception_through_scope")
-                    raise Boom()
-        except Boom:
+                    raise (Boom() if rng.random() < 0.6 else Interrupt())      # an Exception / a bare BaseException subclass
+        except (Boom, Interrupt):
             pass
         finally:
             st["scope"].pop()
